@@ -359,7 +359,7 @@ def run_spans(ck):
     if not ck.go_build("spans"):
         ck.obligation("harness spans builds against the repository", False, ck.build_out[-1500:])
         return
-    n = ck.n(420, 12000)
+    n = ck.n(400, 12000)
     cases = []
     corpus = os.path.join(HERE, "corpus", PID, "spans.jsonl")
     if os.path.exists(corpus):
@@ -408,7 +408,7 @@ def run_spans(ck):
     groups = [[c] for c in heavy] + [light[k:k + shard] for k in range(0, len(light), shard)]
     texts = [(k, cases_file(g)) for k, g in enumerate(groups)]
     from concurrent.futures import ThreadPoolExecutor
-    with ThreadPoolExecutor(max_workers=6) as ex:
+    with ThreadPoolExecutor(max_workers=8) as ex:
         results = list(ex.map(lambda kt: eval_text(ck, "C06_spans_%d" % kt[0], kt[1]), texts))
     for res, out in results:
         if res is None:
